@@ -108,6 +108,9 @@ func runInt(sw *shardWriter, j *jb, data []byte, st *genStats) {
 	j.raw(`,"unch":`)
 	j.b01(bytes.Equal(orig, data))
 	j.raw(`}`)
+	if panics > 0 {
+		j.panicEvent("int", data)
+	}
 	if sw != nil {
 		sw.write(j.b)
 	}
@@ -365,33 +368,29 @@ func genStrings(c *genCtx, sw *shardWriter, j *jb) {
 			}
 		}
 	}
-	// spec states at top level inside a string token x all bytes x {stop, completion}
+	// spec states at top level inside a string token (and every transition into one) x all bytes x continuations
 	if c.statesPath != "" {
 		if ss, err := loadStates(c.statesPath); err == nil {
-			for si := range ss.States {
-				s := &ss.States[si]
+			mem := classMembers(ss)
+			conts := [][]byte{[]byte("5"), []byte(`"`), []byte(`n"`), []byte(`0"`), []byte(`000"`)}
+			if c.thorough() {
+				conts = tokenCompletions(ss)
+			}
+			for _, base := range sweepBases(ss, true, c.thorough(), c.rng) {
+				s := base.st
 				if s.Out != "run" || s.D != 0 {
 					continue
 				}
 				if s.K != "S" && s.K != "SE" && s.K != "SU" && s.K != "V0" {
 					continue
 				}
-				pre := toBytes(s.Inp)
-				succ := map[int][]byte{}
-				for _, su := range s.Succ {
-					if su.Out == "run" {
-						succ[su.B] = toBytes(su.Comp)
-					}
-				}
-				for b := 0; b < 256; b++ {
-					in := append(append([]byte{}, pre...), byte(b))
+				o := sweepOpts{allBytes: !base.edge || c.thorough(), stop: true, rejectConts: conts, rejectAll: c.thorough()}
+				forSweepInputs(ss, mem, base, o, c.rng, func(in []byte, viable bool) {
 					emit(in)
-					emit(append(append([]byte{}, in...), s2b(s.Comp)...))
-					if comp, ok := succ[ss.Classes[b]]; ok {
-						emit(append(append([]byte{}, in...), comp...))
-						emit(append(append(append([]byte{}, in...), comp...), 'x'))
+					if viable && c.rng.Intn(4) == 0 {
+						emit(append(append([]byte{}, in...), 'x'))
 					}
-				}
+				})
 			}
 		}
 	}
@@ -581,6 +580,9 @@ func runTok(sw *shardWriter, j *jb, data []byte, st *genStats) {
 	j.raw(`,"unch":`)
 	j.b01(bytes.Equal(orig, data))
 	j.raw(`}`)
+	if panics > 0 {
+		j.panicEvent("tok", data)
+	}
 	if sw != nil {
 		sw.write(j.b)
 	}
@@ -854,6 +856,32 @@ func genDecodes(c *genCtx, sw *shardWriter, j *jb) {
 			runDecode(sw, j, fi, []byte(s), c.st)
 			runDecode(sw, j, fi, []byte(" "+s+" "), c.st)
 			runDecode(sw, j, fi, []byte(s+",1"), c.st)
+		}
+	}
+	// something a reader gives up on, immediately followed by null (and by other literals)
+	alpha := []byte("-+.eEtfn\"\\u0123456789 [{]},:x\x00\xff")
+	for _, lit := range []string{"null", "true", "1", "\"s\""} {
+		for _, a := range alpha {
+			for fi := range decodeFns {
+				runDecode(sw, j, fi, append([]byte{a}, lit...), c.st)
+			}
+			for _, b := range alpha {
+				if c.thorough() || lit == "null" {
+					fi := c.rng.Intn(len(decodeFns))
+					runDecode(sw, j, fi, append([]byte{a, b}, lit...), c.st)
+					if a == '"' || a == 't' || a == 'f' || a == '-' {
+						for fj := range decodeFns {
+							runDecode(sw, j, fj, append([]byte{a, b}, lit...), c.st)
+						}
+					}
+				}
+			}
+		}
+	}
+	for _, p := range []string{"tr", "tru", "fa", "fal", "fals", "nu", "nul", "\"\\u", "\"\\u0", "\"\\u00", "\"\\u000", "\"a", "\"\\", "1e", "1.", "-0.", "1e+", "0e-"} {
+		for fi := range decodeFns {
+			runDecode(sw, j, fi, []byte(p+"null"), c.st)
+			runDecode(sw, j, fi, []byte(" "+p+"null "), c.st)
 		}
 	}
 	// null literal corruptions for every function
